@@ -360,6 +360,22 @@ pub fn local_nonce_is_draw<V: SealingVersion<Local>>(nonce_len: usize, last_draw
     core::mem::forget(n);
 }
 
+/// Source of signing keys for the public-token harnesses.  Backends whose `random()` is a rejection
+/// loop that symbolic execution cannot bound (paseto-v3-aws-lc: `loop { fill; from_sec1_bytes }`)
+/// set `crate::SECRET_BY_DECODE = Some(len)`: the key is then `decode` of `len` arbitrary bytes — a
+/// superset of what `random()` can return.  `random()` itself is exercised by the C16 harnesses.
+pub fn new_secret<V: SealingVersion<Public>>() -> Option<<V as HasKey<Secret>>::Key> {
+    match crate::SECRET_BY_DECODE {
+        None => forget(<V as SealingVersion<Public>>::random()),
+        Some(48) => {
+            let b: [u8; 48] = kani::any();
+            forget(<V as HasKey<Secret>>::decode(&b))
+        }
+        Some(_) => unreachable!(),
+    }
+}
+
+
 // ================================================================================================
 // public purpose
 // ================================================================================================
@@ -375,7 +391,7 @@ pub fn signed<V: SealingVersion<Public>>(m: usize, f: usize, a: usize, must_succ
     let msg = Bytes::any(m);
     let footer = Bytes::any(f);
     let aad = Bytes::any(a);
-    let sk = match forget(<V as SealingVersion<Public>>::random()) {
+    let sk = match new_secret::<V>() {
         Some(k) => k,
         None => {
             assert!(!must_succeed, "key generation failed");
@@ -413,7 +429,7 @@ pub fn public_roundtrip<V: SealingVersion<Public>>(m: usize, f: usize, a: usize,
 pub fn public_aad_refused<V: SealingVersion<Public>>() {
     let msg: [u8; 1] = kani::any();
     let aad: [u8; 1] = kani::any();
-    let sk = forget(<V as SealingVersion<Public>>::random()).unwrap();
+    let sk = new_secret::<V>().unwrap();
     let pk = <V as SealingVersion<Public>>::unsealing_key(&sk);
     let r = seal_like_lib::<V, Public>(&sk, &msg, b"", &aad);
     assert!(kind(&r) == 4);
@@ -514,7 +530,7 @@ pub fn public_tamper_class<V: SealingVersion<Public>, const W: u8>(m: usize, f: 
             al = a - 1;
         }
         14 => {
-            let sk2 = match forget(<V as SealingVersion<Public>>::random()) {
+            let sk2 = match new_secret::<V>() {
                 Some(k) => k,
                 None => {
                     kani::assume(false);
@@ -544,7 +560,7 @@ pub fn public_tamper_class<V: SealingVersion<Public>, const W: u8>(m: usize, f: 
 }
 
 pub fn public_unseal_arbitrary<V: SealingVersion<Public>, const N: usize>() {
-    let sk = match forget(<V as SealingVersion<Public>>::random()) {
+    let sk = match new_secret::<V>() {
         Some(k) => k,
         None => return,
     };
@@ -896,7 +912,7 @@ where
     <V as HasKey<Public>>::Key: Clone,
     <V as HasKey<Secret>>::Key: Clone,
 {
-    let sk = match forget(<V as SealingVersion<Public>>::random()) {
+    let sk = match new_secret::<V>() {
         Some(k) => k,
         None => {
             kani::assume(false);
